@@ -1,4 +1,5 @@
 import QmiModel.Model.WakeSys
+import QmiModel.Model.WakeEnc
 import Drv.Common
 import Std.Data.HashMap
 /-!
@@ -142,6 +143,25 @@ def stepLine (d : DState) (line : String) : DState × String :=
         let L := (explore sys).toList
         (d, s!"states={L.length} " ++ (if closedB sys (explore sys) && L.all (earlyGood sys ts) then "ok" else "bad=stop-task-in-state"))
       else (d, "bad-op")
+    | _, _ => (d, "bad-op")
+  | ["cert", t, n, p, c, k] =>
+    -- the reachable set as a certificate: k groups of buckets of packed states  (groups `|`, buckets `;`, states `,`)
+    match parseSys t n p c, k.toNat? with
+    | some (sys, _), some k =>
+      if k == 0 then (d, "bad-op") else
+      let is := inits sys
+      let nodes0 : Array Node := is.foldl (fun a s => a.push ⟨s, a.size, 0, .crash⟩) #[]
+      let index0 : Std.HashMap Nat (List Nat) :=
+        (List.range nodes0.size).foldl (fun m j => match nodes0[j]? with | some n => m.insert n.st.key (j :: m.getD n.st.key []) | none => m) {}
+      let nodes := bfs sys nodes0 index0 0
+      let codes := nodes.toList.map fun n => enc n.st
+      let roundtrip := nodes.toList.all fun n => (dec (enc n.st)).beq n.st
+      let g := (codes.length / (8 * k)) + 1
+      let nbk := k * g
+      let buckets : Array (List Nat) := codes.foldl (fun a c => a.modify (bucketOf nbk c) (c :: ·)) (Array.replicate nbk [])
+      let groups := (List.range k).map fun j => (List.range g).map fun i => buckets.getD (j * g + i) []
+      let txt := "|".intercalate (groups.map fun grp => ";".intercalate (grp.map fun b => ",".intercalate (b.map toString)))
+      (d, s!"states={codes.length} roundtrip={roundtrip} nbk={nbk} cert={txt}")
     | _, _ => (d, "bad-op")
   | ["progs"] => (d, " ".intercalate (QmiModel.Gen.SyncProgs.funcs.map fun f => s!"{f.code.length}/{f.handlers.length}"))
   | _ => (d, "bad-op")
